@@ -34,12 +34,16 @@ ASSUMPTIONS = [
     "the base environment's *sources* list grows by design when DIP(base) is constructed; only nodes and units "
     "of the base are required to stay unchanged",
     "unit conversion uses the regenerated table of the 9 units the generator uses (Generated/C17Units.lean)",
-    "C17_base_unchanged is proved for the heap view of Environment.copy (deep copy + writes through the target's "
-    "addresses only); that the real objects are not shared is checked on every run by snapshots",
+    "C17_base_unchanged / C17_query_copy_deep are proved for the heap view of copy.deepcopy (fresh objects + writes "
+    "through the copy's addresses only); that the real objects are not shared is checked on every run by snapshots, "
+    "by property lines attached to imported copies and by second imports of the same request",
 ]
 EXPLANATION = ("theorems: query = filter+rename characterisation and the three import forms, injection delivers the "
-               "current value cut by slice_value, slice_value = Python slicing (guarded, counterexamples for n:n and "
-               "text), unit rule, count rejection, empty import rejected, deep-copy frame property, slice laws")
+               "current value cut by slice_value, slice_value = Python slicing (all slice lists, text included), unit rule, "
+               "count rejection, empty import rejected, deep-copy frame properties (environment copy; query copy deep in "
+               "every mutable attribute), slice laws, and a refinement theorem: for flat programs of definitions, "
+               "modifications, injections and imports the model's main loop computes exactly the specification's "
+               "path-keyed environment (C17_refinement_partial)")
 EXTRA_OBLIGATIONS = ["SciVerif.C17.unitTable_wf"]
 
 UNITS = ["m", "cm", "km", "mm", "s", "ms", "min", "g", "kg"]
@@ -254,6 +258,8 @@ def line_text(l):
             return ind + "!format '%s'" % l["v"]
         if p == "tags":
             return ind + "!tags " + json.dumps(l["v"], separators=(",", ":"))
+        if p == "description":
+            return ind + '!description "%s"' % l["v"]
         if p == "option":
             return ind + "= " + ('"%s"' % l["v"] if l.get("quoted") else l["v"]) + (" " + l["unit"] if l.get("unit") else "")
     raise ValueError(l)
@@ -263,8 +269,9 @@ def text_of(lines):
     return "\n".join(line_text(l) for l in lines)
 
 
-def slice_pairs(sl):
-    return [[s[1], s[1]] if s[0] == "idx" else [s[1], s[2]] for s in (sl or [])]
+def slice_objects(sl):
+    """value_slice as Parser.part_slice stores it: integer indices and slice objects"""
+    return [s[1] if s[0] == "idx" else slice(s[1], s[2]) for s in (sl or [])]
 
 
 def model_item(l):
@@ -286,7 +293,7 @@ def model_item(l):
     else:
         r = l["val"]["ref"]
         it["ref"] = ref_text(r)
-        it["slice"] = slice_pairs(r.get("slices"))
+        it["slice"] = r.get("slices") or []
         it["raw"] = None
     return it
 
@@ -356,6 +363,7 @@ def node_record(n):
            "constant": bool(n.constant), "condition": n.condition, "format": getattr(n, "format", None),
            "tags": list(getattr(n, "tags", None) or []),
            "options": [[str(o.value_raw), o.units_raw or None] for o in (getattr(n, "options", None) or [])],
+           "description": getattr(n, "description", None),
            "dims": [[a, b] for a, b in (n.dimension or [])]}
     return rec
 
@@ -447,7 +455,7 @@ def run_impl(prog):
 
 
 # ------------------------------------------------------------------ comparison
-ATTRS = ["kw", "unit", "value", "constant", "condition", "format", "tags", "options", "dims"]
+ATTRS = ["kw", "unit", "value", "constant", "condition", "format", "tags", "options", "description", "dims"]
 
 
 def lean_rec(j):
@@ -495,15 +503,7 @@ def origin_of(name, prog):
 
 
 def special_class(prog):
-    """input classes of the known findings (most specific first)"""
-    for l in prog["main"] + (prog.get("base") or []) + [x for s in prog["sources"] for x in s["lines"]]:
-        if l["k"] in ("def", "mod") and "ref" in l["val"]:
-            for s in l["val"]["ref"].get("slices") or []:
-                if s[0] == "rng" and s[1] is not None and s[1] == s[2]:
-                    return "slice:n:n"
-    for l in prog["main"]:
-        if l["k"] == "def" and "ref" in l["val"] and l["val"]["ref"].get("slices") and l.get("srckind") == "str-scalar":
-            return "slice:text"
+    """input classes of known findings (none at present: slice n:n and text slices are repaired)"""
     return None
 
 
@@ -717,6 +717,8 @@ class Gen:
                         lines.append(pl)
                         if p in ("constant", "option"):
                             info["frozen"] = True
+                        if p == "option":
+                            info["hasopt"] = True
             cat[tuple(path)] = info
 
     def prop_line(self, p, kw, shape, val, unit, indent, path):
@@ -732,6 +734,19 @@ class Gen:
             return {"k": "prop", "indent": indent, "p": "option",
                     "v": val["n"] if kw == "int" else val, "quoted": kw == "str", "unit": None, "path": path}
         return None
+
+    def copy_prop(self, p, info, indent, path):
+        """a property line for an imported copy (never invalidates the copy's current value)"""
+        rng = self.rng
+        kw, shape = info["kw"], info["shape"]
+        if p == "option":
+            if not info.get("hasopt") or shape:
+                return None
+            v = num(rng.randint(100, 999))["n"] if kw == "int" else rng.choice(WORDS) + "x"
+            return {"k": "prop", "indent": indent, "p": "option", "v": v, "quoted": kw == "str", "unit": None, "path": path}
+        if p == "description":
+            return {"k": "prop", "indent": indent, "p": "description", "v": rng.choice(WORDS) + " " + rng.choice(WORDS), "path": path}
+        return self.prop_line(p, kw, shape, None, None, indent, path)
 
     # -- later modification with a literal
     def mod_line(self, cat, path, where=None):
@@ -762,8 +777,6 @@ class Gen:
             else:
                 a = rng.choice([None] + list(range(0, n + 1)))
                 b = rng.choice([None] + list(range(0, n + 2)))
-                if a is not None and b is not None and a == b:
-                    b = None                       # n:n is the known-finding class, generated separately
                 lo = a or 0
                 hi = n if b is None else min(b, n)
                 sl.append(["rng", a, b])
@@ -778,6 +791,9 @@ class Gen:
         rng = self.rng
         info = cat[srcpath]
         sl, shape = self.pick_slices(info["shape"])
+        if info["kw"] == "str" and not info["shape"] and rng.random() < 0.4:
+            # a scalar text is sliced like a Python string (non-empty results for words of >= 2 letters)
+            sl = [rng.choice([["idx", 0], ["idx", 1], ["rng", 0, 1], ["rng", None, 2], ["rng", 1, None], ["rng", 0, 2]])]
         if 0 in shape and len(shape) > 1:
             sl, shape = [], list(info["shape"])
         kw = info["kw"]
@@ -953,7 +969,25 @@ def gen_program(rng, malformed=False):
                 main.append({"k": "imp", "indent": 0, "prefix": dest_name + "." + sub, "dest": [dest_name, sub],
                              "source": src, "q": q})
                 dest = [dest_name, sub]
-            g.cat.update(import_names(cat, q, dest))
+            created = import_names(cat, q, dest)
+            g.cat.update(created)
+            imp_indent = main[-1]["indent"]
+            if created and rng.random() < 0.5:
+                # property lines attached to the imported copy (they act on the last imported node) ...
+                last = list(created)[-1]
+                info = g.cat[last]
+                for pk in rng.sample(["tags", "constant", "condition", "format", "description", "option", "option"],
+                                     rng.randint(1, 3)):
+                    pl = g.copy_prop(pk, info, imp_indent + 2, list(last))
+                    if pl:
+                        main.append(pl)
+                        if pk == "constant":
+                            info["frozen"] = True
+                # ... and a second import of the same request: the original must be as its text defines it
+                if rng.random() < 0.6:
+                    d2 = g.fresh("J")
+                    main.append({"k": "imp", "indent": 0, "prefix": d2, "dest": [d2], "source": src, "q": q})
+                    g.cat.update(import_names(cat, q, [d2]))
         else:
             # later literal modification of a local node (source, host or imported)
             cands = [t for t, ti in g.cat.items() if not ti["frozen"]]
@@ -1021,6 +1055,42 @@ def corpus():
         L("def", indent=0, name="person", path=["person"], kw="str", dims=[], val={"lit": "willsmith"}, unit=None),
         dict(L("def", indent=0, name="surname", path=["surname"], kw="str", dims=[],
                val=ref(["exact", ["person"]], [["rng", 4, None]]), unit=None), srckind="str-scalar")]}))
+    # property lines on an imported copy; the original and a second import must stay as defined
+    o1 = L("def", indent=2, name="o", path=["g", "o"], kw="int", dims=[], val={"lit": F(1)}, unit=None)
+    progs.append(("copy-options-local", {"sources": [], "base": None, "main": [
+        L("group", indent=0, name="g"), o1,
+        L("prop", indent=4, p="option", v="1", unit=None, path=["g", "o"]),
+        L("prop", indent=4, p="option", v="2", unit=None, path=["g", "o"]),
+        L("prop", indent=4, p="tags", v=["t1"], path=["g", "o"]),
+        L("group", indent=0, name="fine"),
+        L("imp", indent=2, prefix=None, dest=["fine"], source=None, q=["exact", ["g", "o"]]),
+        L("prop", indent=4, p="option", v="7", unit=None, path=["fine", "o"]),
+        L("prop", indent=4, p="tags", v=["sel"], path=["fine", "o"]),
+        L("imp", indent=0, prefix="J", dest=["J"], source=None, q=["children", ["g"]]),
+        L("mod", indent=0, name="fine.o", path=["fine", "o"], val={"lit": F(7)}, unit=None),
+        L("mod", indent=0, name="g.o", path=["g", "o"], val={"lit": F(2)}, unit=None)]}))
+    progs.append(("copy-options-remote", {"sources": [{"name": "src", "lines": [
+        L("def", indent=0, name="s", path=["s"], kw="str", dims=[], val={"lit": "ab"}, unit=None),
+        L("prop", indent=2, p="option", v="ab", quoted=True, unit=None, path=["s"]),
+        L("prop", indent=2, p="option", v="cd", quoted=True, unit=None, path=["s"]),
+        L("prop", indent=2, p="tags", v=["t2"], path=["s"]),
+        L("group", indent=0, name="k"),
+        L("def", indent=2, name="x", path=["k", "x"], kw="float", dims=[[2, 2]], val={"lit": [F(1), F(2)]}, unit="m"),
+        L("def", indent=2, name="y", path=["k", "y"], kw="float", dims=[], val={"lit": F(5)}, unit="s"),
+        L("prop", indent=4, p="tags", v=["t1"], path=["k", "y"])]}],
+        "base": None, "main": [
+        L("group", indent=0, name="first"),
+        L("imp", indent=2, prefix=None, dest=["first"], source="src", q=["exact", ["s"]]),
+        L("prop", indent=4, p="option", v="ef", quoted=True, unit=None, path=["first", "s"]),
+        L("prop", indent=4, p="tags", v=["sel", "t1"], path=["first", "s"]),
+        L("prop", indent=4, p="description", v="copy only", path=["first", "s"]),
+        L("imp", indent=0, prefix="second", dest=["second"], source="src", q=["exact", ["s"]]),
+        L("imp", indent=0, prefix="c1", dest=["c1"], source="src", q=["children", ["k"]]),
+        L("prop", indent=2, p="tags", v=["sel"], path=["c1", "y"]),
+        L("prop", indent=2, p="condition", v="{?} > -1000000000000000", path=["c1", "y"]),
+        L("prop", indent=2, p="constant", path=["c1", "y"]),
+        L("imp", indent=0, prefix="c2", dest=["c2"], source="src", q=["children", ["k"]]),
+        L("def", indent=0, name="z", path=["z"], kw="str", dims=[], val=ref(["exact", ["s"]], source="src"), unit=None)]}))
     # base environment
     progs.append(("base", {"sources": [], "main": [
         L("mod", indent=0, name="a", path=["a"], val={"lit": F(5)}, unit="m"),
@@ -1083,6 +1153,10 @@ def prog_stream(ctx, progs, stream):
                     ctx.count("slice.%s" % s[0])
             elif l["k"] == "imp":
                 ctx.count("import.%s" % l["q"][0])
+        dests = [tuple(l["dest"]) for l in prog["main"] if l["k"] == "imp"]
+        for l in prog["main"]:
+            if l["k"] == "prop" and any(tuple(l["path"][:len(d)]) == d for d in dests):
+                ctx.count("copy_prop.%s" % l["p"])
 
 
 def _plain(v):
@@ -1116,7 +1190,7 @@ def slice_stream(ctx, count):
     for (v, sl), r in zip(cases, res):
         arr = np.array(_plain(v), dtype=int)
         try:
-            out = canon(node.slice_value([tuple(p) for p in slice_pairs(sl)], arr))
+            out = canon(node.slice_value(slice_objects(sl), arr))
         except Exception:
             out = "err"
         nn = any(s[0] == "rng" and s[1] is not None and s[1] == s[2] for s in sl)
@@ -1139,7 +1213,7 @@ def slice_stream(ctx, count):
                 npres = "err"
             # (only where numpy defines a result: ill-formed slices are outside the property)
             if npres != "err" and sp is not None and same_val(npres, sp):
-                ctx.violation("slice:n:n" if nn else "slice:value",
+                ctx.violation("slice:value",
                               "slice_value differs from Python slicing for %s on %s: impl %s, Python %s" % (slices_text(sl), v, out, npres),
                               {"stream": "slice", "v": v, "slices": sl, "impl": out, "python": npres})
 
